@@ -9,7 +9,7 @@ run_one() {
   ID=$1; W=$2
   git -C $W checkout -q --detach "$(git -C /repo rev-parse HEAD)" 2>/dev/null; git -C $W checkout -q -- .; git -C $W clean -fdq
   if ! git -C $W apply $HERE/seeded/$ID/patch.diff 2>/dev/null; then echo "$ID - PATCH-DOES-NOT-APPLY"; return; fi
-  for p in $(/venv/bin/python -c "import json;print(' '.join(json.load(open('$HERE/seeded/$ID/meta.json'))['caught_by']))"); do
+  for p in $(/venv/bin/python -c "import json;m=json.load(open('$HERE/seeded/$ID/meta.json'));print(' '.join([] if m.get('neutralised_by_fix') else m['caught_by']))"); do
     out=$(TORCHTT_REPO=$W $HERE/check $p --tier quick 2>&1); rc=$?
     echo "$ID $p rc=$rc $(echo "$out" | grep -E '^  key=' | head -1 | cut -c1-150)"
   done
